@@ -123,12 +123,14 @@ def gen(ctx):
     fastw = scrape.scrape_shift_fast_path(vlib.repo_read("lualib/nelua/cbuiltins.lua"))
     vdp = scrape.scrape_vardecl_policy(vlib.repo_read("lualib/nelua/cgenerator.lua"))
     sep = scrape.scrape_sideeffect_policy(vlib.repo_read("lualib/nelua/analyzer.lua"))
+    mneg = scrape.scrape_maybe_negative(vlib.repo_read("lualib/nelua/attr.lua"), vlib.repo_read("lualib/nelua/cbuiltins.lua"))
     keys = list(scrape.BINOPS)
     gcc_base = fl["gcc"]["cflags_base"].split()
     clang_base = fl["clang"]["cflags_base"].split()
     txt = "\n".join([
         "(* GENERATED by checks/C01.py from /repo (syntaxdefs.lua, src/lua/lparser.c, lcode.h, cdefs.lua) - do not edit *)",
-        "From Coq Require Import ZArith Bool.",
+        "From Coq Require Import ZArith Bool List.",
+        "Import ListNotations.",
         "From C01 Require Import Ops VarDecl.",
         "From C01 Require Order.",
         "Local Open Scope Z_scope.",
@@ -154,6 +156,11 @@ def gen(ctx):
         "(* cgenerator.visitors.VarDecl: does the bare initializer of a variable dropped by dead code elimination /",
         "   the `_asgnret = call` statement of a trailing multiple-return call go to `defemitter` (appended last)? *)",
         "Definition vardecl_policy : vd_policy := mk_vdp %s %s." % ("true" if vdp["dead_in_def"] else "false", "true" if vdp["asgnret_in_def"] else "false"),
+        "(* attr.lua Attr:is_maybe_negative: the conditions under which it answers `false` (1 = unsigned type, 2 = compile-time",
+        "   value >= 0, >= 100 = a condition the model does not know: %s); operators.idiv / operators.mod call the floor" % (mneg["unknown"] or "none"),
+        "   helper when either operand may be negative *)",
+        "Definition maybe_negative_exits : list nat := [%s]." % "; ".join("%d%%nat" % a for a in mneg["exits"]),
+        "Definition idiv_helper_if_either_maybe_negative : bool := %s." % ("true" if mneg["either"] else "false"),
         "(* analyzer.lua: visitor_Call gives a call the `sideeffect` attribute of its arguments / visitors.Assign marks the",
         "   enclosing function for a store whose target has no symbol (field, index, pointer) *)",
         "Definition analyzer_se_policy : Order.se_policy := Order.mk_sep %s %s." % ("true" if sep["args_propagate"] else "false", "true" if sep["indirect_marks"] else "false"),
@@ -165,7 +172,7 @@ def gen(ctx):
                   if scrape.LUA_TOKEN.get(k[2:] if k.startswith("u:") else k) != v}
     return {"nelua_ladder": lad, "lua_priority": lua, "gcc_cflags_base": gcc_base, "clang_cflags_base": clang_base,
             "tokens_differing_from_lua": bad_tokens, "div_guard_first": guard, "shift_fast_path_compares_left_width": fastw,
-            "vardecl_policy": vdp, "sideeffect_policy": sep}
+            "vardecl_policy": vdp, "sideeffect_policy": sep, "is_maybe_negative": mneg}
 
 
 # ---------------------------------------------------------------------------
